@@ -224,7 +224,7 @@ def run_saveload(ctx, g):
             cases.append((len(cases), fam))
         for _ in range(40000 if ctx.thorough else 4000):
             cases.append((len(cases), random_saved(rng)))
-    if ctx.thorough and not ctx.replay:
+    if ctx.fixtures and not ctx.replay:
         from harness import fixtures
         sl = fixtures.slices("quantised")
         for a, b in zip(sl, sl[1:]):
